@@ -21,6 +21,7 @@ PROSE = ["number of {n} items to use", "name of the {n}", "whether to shuffle th
 SCALARS = ["str", "int", "float", "bool"]
 
 
+SPICY_P = float(os.environ.get("DTSIM_SPICY_P", "0"))
 RETDOC_P = float(os.environ.get("DTSIM_RETDOC_P", "0.08"))
 
 
@@ -33,6 +34,13 @@ def gen_default(ch, typ, label):
         optional = True
     if optional and ch.chance(label + ".none", 0.4):
         return {"v": None}
+    spicy = ch.chance(label + ".spicy", SPICY_P)
+    if spicy and base == "int":
+        return {"v": ch.choice(label + ".sint", [10 ** 12, -(2 ** 31), 0o17, 1_000])}
+    if spicy and base == "float":
+        return {"v": ch.choice(label + ".sfloat", [1e-09, 1e+20, -0.0, 3.0])}
+    if spicy and base == "str":
+        return {"v": ch.choice(label + ".sstr", ["it's", 'say "hi"', "a\\b", "50%", "{x}", "a:b", "x=1, y=2", "#tag", "", " padded ", "tab\there", "caf\u00e9"])}
     if base == "int":
         return {"v": ch.choice(label + ".int", [0, 1, 2, 3, 5, 10, 32, 100, -1, -7])}
     if base == "float":
@@ -422,7 +430,19 @@ def unrelated_statements(ch, label, colliding, k, after_def=None, local_name=Non
     return out
 
 
-def assemble(before, definition, after, trailing_newline=True, module_doc=None):
+HEADERS = [None, None, None, None, None, None,
+           "# -*- coding: utf-8 -*-\n",                                    # directly above the first statement
+           "#!/usr/bin/env python\n# -*- coding: utf-8 -*-\n\n",           # the usual blank line below
+           "# Copyright (c) the authors\n# Licensed under the MIT licence\n#\n\n"]
+
+
+def assemble(before, definition, after, trailing_newline=True, module_doc=None, header=None):
+    text = _assemble(before, definition, after, trailing_newline, module_doc)
+    # leading comment lines (shebang, coding cookie, licence): part of the file's bytes, not of its syntax tree
+    return (header + text) if header and text else text
+
+
+def _assemble(before, definition, after, trailing_newline=True, module_doc=None):
     parts = []
     if module_doc:
         parts.append('"""%s"""' % module_doc)
